@@ -133,7 +133,17 @@ pub fn serve(raw: UnixStream, s: SrvCfg, acc_key: Vec<u8>, rawlog: Arc<Mutex<Vec
     let mut cur_share = s.share;
     let mut reactivated = false;
     loop {
-        let f = match read_tpkt(&mut tls) { Some(f) => f, None => break };
+        let f = {
+            // (as read_tpkt, but what arrives instead of a TPKT frame is noted: a DER structure here means that the client
+            // speaks CredSSP although this server did not select it)
+            let mut h = [0u8; 4];
+            if tls.read_exact(&mut h).is_err() { break; }
+            let n = ((h[2] as usize) << 8) | h[3] as usize;
+            if h[0] != 3 || n < 4 { if log.note.is_empty() { log.note = format!("first byte {:02x} where a TPKT frame was expected", h[0]); } break; }
+            let mut v = h.to_vec(); let mut body = vec![0u8; n - 4];
+            if tls.read_exact(&mut body).is_err() { break; }
+            v.extend(body); v
+        };
         log.frames.push(f.clone());
         if f.len() < 8 { continue; }
         let m = &f[7..];
@@ -394,6 +404,7 @@ pub fn tlsgate(em: &mut Emitter, check: bool, nla: bool, ra: bool, ssel: u32) {
     let offered = if r.log.cr.len() >= 19 { u32::from_le_bytes([r.log.cr[15], r.log.cr[16], r.log.cr[17], r.log.cr[18]]) } else { 0 };
     if (tls_up || cred) && r.log.sel & offered == 0 { obs = obs.viol("the client went on although the server selected a protocol that was not in the request"); }
     if offered != if nla { 3 } else { 1 } { obs = obs.viol("the negotiation request does not offer what the configuration asks for"); }
+    if r.log.sel != 2 && r.log.note.starts_with("first byte 30") { obs = obs.viol("a DER structure (a CredSSP token) arrived where the selected protocol carries MCS frames: the client runs a security protocol the server did not select"); }
     em.case(&line, move || obs);
 }
 
